@@ -58,17 +58,24 @@ def main():
                 if os.path.isdir(os.path.join(wt, c)):
                     placed = os.path.join(wt, c, os.path.basename(d))
                     shutil.copy(d, placed)
-                    rc1, o1 = sh('go test -count=1 -run "Demo|demo" ./%s 2>&1 | tail -15' % c, cwd=wt)
-                    fails_with = ('FAIL' in o1) and ('build failed' not in o1) and ('cannot' not in o1.split('FAIL')[0][-200:] or True)
+                    names = re.findall(r'^func (Test\w+)\(', open(d).read(), re.M)
+                    runpat = '^(' + '|'.join(names) + ')$' if names else 'Demo|demo'
+                    rc1, o1 = sh('go test -count=1 -run "%s" ./%s 2>&1 | tail -15' % (runpat, c), cwd=wt)
+                    fails_with = ('FAIL' in o1) and ('build failed' not in o1)
                     if 'build failed' in o1 or 'undefined:' in o1 or 'no test files' in o1:
                         os.remove(placed)
                         placed = None
                         continue
-                    sh('git stash -q', cwd=wt)
+                    # toggle the change without git stash (the stash is shared between worktrees)
+                    os.remove(placed)
+                    open('/var/tmp/mutv.patch', 'w').write(rebased)
+                    sh('git apply -R /var/tmp/mutv.patch', cwd=wt)
                     shutil.copy(d, placed)
-                    rc2, o2 = sh('go test -count=1 -run "Demo|demo" ./%s 2>&1 | tail -8' % c, cwd=wt)
-                    passes_without = rc2 == 0 and 'ok' in o2 and 'FAIL' not in o2
-                    sh('git stash pop -q', cwd=wt)
+                    rc2, o2 = sh('go test -count=1 -run "%s" ./%s 2>&1 | tail -8' % (runpat, c), cwd=wt)
+                    passes_without = rc2 == 0 and 'ok' in o2 and 'FAIL' not in o2 and 'no tests to run' not in o2
+                    os.remove(placed)
+                    sh('git apply /var/tmp/mutv.patch', cwd=wt)
+                    os.remove('/var/tmp/mutv.patch')
                     os.remove(placed) if os.path.exists(placed) else None
                     demo_ok = {'dir': c, 'fails_with_patch': bool(fails_with), 'passes_without': bool(passes_without),
                                'with_tail': o1[-300:], 'without_tail': o2[-200:]}
